@@ -1,1 +1,218 @@
-theorem c03_placeholder : True := trivial
+import CvProps.C03Lemmas
+/-!
+# C03 — a run resumed from a saved state is indistinguishable from an uninterrupted run
+
+Property theorems about `CvModel/Resume.lean` and `CvModel/Module.lean` at `α := ℝ`
+(module with value-injected scalar variables; biases: histogram, ABF, harmonic, restraints with schedules;
+metadynamics is not covered here: its state is compared on the real code only).
+
+The engine convention (NAMD / LAMMPS / GROMACS, mirrored by the harness): the stop step K is evaluated again, with
+the same coordinates, as step 0 of the resumed run (`Clock.first`), and every later step advances the counter.
+-/
+open Cv
+
+namespace Cv.C03
+
+/-- same kind of bias, configured identically (`firstStep` of a moving restraint is a state parameter) -/
+def Compatible : Bias ℝ → Bias ℝ → Prop
+  | .hist i g z _, .hist i' g' z' _ => i = i' ∧ g = g' ∧ z = z'
+  | .abf i p _, .abf i' p' _ => i = i' ∧ p = p'
+  | .harm i k c, .harm i' k' c' => i = i' ∧ k = k' ∧ c = c'
+  | .restr i p _, .restr i' p' _ => i = i' ∧ p' = { p with firstStep := p'.firstStep }
+  | _, _ => False
+
+/-! ## saving immediately after loading reproduces the state that was loaded -/
+
+theorem save_after_load_bias (fresh saved : Bias ℝ) (h : Compatible fresh saved) :
+    saveBias (loadBias fresh saved) = saveBias saved := by
+  cases fresh <;> cases saved <;> simp only [Compatible] at h <;> try (simp [loadBias, saveBias]; done)
+  rename_i i p s i' p' s'
+  obtain ⟨_, hp⟩ := h
+  have h1 : p'.targetCenters = p.targetCenters := by rw [hp]
+  have h2 : p'.chgK = p.chgK := by rw [hp]
+  have h3 : p'.nstages = p.nstages := by rw [hp]
+  have h4 : p'.outputWork = p.outputWork := by rw [hp]
+  cases hA : p.targetCenters.isSome <;> cases hB : p.chgK <;> cases hC : p.outputWork <;>
+    by_cases h5 : p.nstages = 0 <;> simp [loadBias, saveBias, h1, h2, h3, h4, hA, hB, hC, h5]
+
+theorem save_after_load (fresh saved : Sys ℝ)
+    (hn : fresh.biases.map (·.1) = saved.biases.map (·.1)) (hnd : (saved.biases.map (·.1)).Nodup)
+    (hc : ∀ pr ∈ fresh.biases.zip saved.biases, Compatible pr.1.2 pr.2.2) :
+    persist (sysLoad fresh saved) = persist saved := by
+  simp only [persist, sysLoad, List.map_map, Prod.mk.injEq, true_and]
+  refine C03L.map_eq_map_of_zip _ _ _ _ (C03L.length_eq_of_map_fst _ _ hn) ?_
+  intro pr hpr
+  have hname : pr.1.1 = pr.2.1 := C03L.zip_fst_eq _ _ hn pr hpr
+  have hmem : pr.2 ∈ saved.biases := (List.of_mem_zip hpr).2
+  have hfind := C03L.find_of_mem_nodup saved.biases hnd pr.2 hmem
+  simp only [Function.comp, hname, hfind]
+  rw [save_after_load_bias _ _ (hc pr hpr)]
+
+/-- the loaded instance holds the saved accumulated data: histogram counts, ABF counts and gradient sums -/
+theorem load_restores_data (fresh saved : Bias ℝ) (h : Compatible fresh saved) :
+    (∀ i g z d, saved = .hist i g z d → ∃ i' g' z', loadBias fresh saved = .hist i' g' z' d) ∧
+    (∀ i p s, saved = .abf i p s → ∃ s', loadBias fresh saved = .abf i p s' ∧ s'.samples = s.samples ∧ s'.grad = s.grad) := by
+  cases fresh <;> cases saved <;> simp only [Compatible] at h <;> simp [loadBias]
+  exact h
+
+/-! ## after the stop step has been re-evaluated, the two runs are step-for-step identical -/
+
+/-- two instances in the same state up to run bookkeeping: everything equal except the step at which the current
+    run started, and the stored total force of a variable whose total force is recomputed at every step -/
+structure SameUpToRun (a b : Sys ℝ) : Prop where
+  it : a.clock.it = b.clock.it
+  running : a.clock.first = false ∧ b.clock.first = false
+  rel : 0 ≤ a.clock.stepRelative ∧ 0 ≤ b.clock.stepRelative
+  tfSame : a.tfSame = b.tfSame
+  tfLoop : a.tfLoop = b.tfLoop
+  tsf : a.tsf = b.tsf
+  biases : a.biases = b.biases
+  applied : a.lastApplied = b.lastApplied
+  cvsLen : a.cvs.length = b.cvs.length
+  cvs : ∀ (k : Nat) (va vb : CvSt ℝ), a.cvs[k]? = some va → b.cvs[k]? = some vb →
+        va = { vb with ft := va.ft } ∧ (va.tfCalc = true ∨ va.ft = vb.ft)
+
+/-- one ordinary step (not a repeated step 0) keeps the two instances together and gives the same energy and forces -/
+theorem step_together (a b : Sys ℝ) (i : StepIn ℝ) (h : SameUpToRun a b) (hc : i.cont = false) :
+    (modStep a i).2 = (modStep b i).2 ∧ SameUpToRun (modStep a i).1 (modStep b i).1 := by
+  have hce := C03L.clockEq_tick a.clock b.clock h.running.1 h.running.2 h.it h.rel.1 h.rel.2
+  rw [C03L.modStep_eq a i, C03L.modStep_eq b i, hc]
+  rw [C03L.cvs_map_congr hce a b i h.tfSame h.tfLoop h.applied h.cvsLen h.cvs,
+    C03L.updOf_congr hce a b h.tfSame h.tsf h.biases]
+  refine ⟨rfl, ?_⟩
+  have hta := C03L.tick_running a.clock h.running.1
+  have htb := C03L.tick_running b.clock h.running.2
+  constructor
+  · exact hce.it
+  · simpa [C03L.finish, hta, htb] using h.running
+  · exact ⟨le_of_lt hce.pos, le_of_lt hce.pos'⟩
+  · exact h.tfSame
+  · exact h.tfLoop
+  · exact h.tsf
+  · rfl
+  · rfl
+  · rfl
+  · intro k va vb h1 h2
+    have : va = vb := Option.some.inj (h1.symm.trans h2)
+    subst this
+    exact ⟨rfl, Or.inr rfl⟩
+
+/-- hence whole runs coincide: the same outputs at every step, and the same state file at the end -/
+theorem runs_together (a b : Sys ℝ) (ins : List (StepIn ℝ)) (h : SameUpToRun a b) (hc : ∀ i ∈ ins, i.cont = false) :
+    (sysRun a ins).2 = (sysRun b ins).2 ∧ persist (sysRun a ins).1 = persist (sysRun b ins).1 ∧
+    SameUpToRun (sysRun a ins).1 (sysRun b ins).1 := by
+  induction ins generalizing a b with
+  | nil => exact ⟨rfl, by simp only [sysRun, persist, h.it, h.biases], h⟩
+  | cons i is ih =>
+    obtain ⟨h1, h2⟩ := step_together a b i h (hc i (by simp))
+    obtain ⟨h3, h4, h5⟩ := ih _ _ h2 (fun j hj => hc j (by simp [hj]))
+    exact ⟨by simp only [sysRun, h1, h3], h4, h5⟩
+
+/-! ## re-evaluating the stop step from the loaded state reproduces the state of the uninterrupted run
+
+  for modules whose biases are histograms, harmonic restraints and ABF -/
+
+/-- a freshly configured instance of the same input: same static configuration, initial dynamic data -/
+structure FreshOf (fresh s : Sys ℝ) : Prop where
+  clock : fresh.clock = {}
+  tfSame : fresh.tfSame = s.tfSame
+  tfLoop : fresh.tfLoop = s.tfLoop
+  tsf : fresh.tsf = s.tsf
+  applied : fresh.lastApplied = []
+  cvsLen : fresh.cvs.length = s.cvs.length
+  cvs : ∀ (k : Nat) (vf vs : CvSt ℝ), fresh.cvs[k]? = some vf → s.cvs[k]? = some vs →
+        vf = { vs with x := vf.x, ft := 0, fOld := 0, f := 0 }
+  names : fresh.biases.map (·.1) = s.biases.map (·.1)
+  nodup : (s.biases.map (·.1)).Nodup
+  compat : ∀ pr ∈ fresh.biases.zip s.biases, Compatible pr.1.2 pr.2.2
+  abfInit : ∀ n i p st, (n, Bias.abf i p st) ∈ fresh.biases → st = AbfState.init p
+
+/-- only histograms, harmonic restraints and ABF; no bias sleeps (time-step factors 1); ABF biases act on variables
+    that exist -/
+def Simple (s : Sys ℝ) : Prop :=
+  (∀ nb ∈ s.biases, (∃ i g z d, nb.2 = .hist i g z d) ∨ (∃ i k c, nb.2 = .harm i k c) ∨ (∃ i p st, nb.2 = .abf i p st)) ∧
+  (∀ nb ∈ s.biases, tsfOf s nb.1 = 1) ∧
+  -- `stepZeroData` asks for the first step of every run to be accumulated, the repeated stop step included
+  (∀ nb ∈ s.biases, ∀ i g z d, nb.2 = .hist i g z d → z = false) ∧
+  (∀ nb ∈ s.biases, ∀ i p st, nb.2 = .abf i p st → p.stepZeroData = false)
+
+/-- fields that are never written keep their initial value 0 (true of every state reached from a configured one) -/
+def Tidy (s : Sys ℝ) : Prop :=
+  ∀ v ∈ s.cvs, (v.tfCalc = false → v.ft = 0) ∧ (v.subtract = false → v.fOld = 0)
+
+/-- **the stop step, re-evaluated**: let `s` be the state after an ordinary step `i` of the uninterrupted run
+    (`prev` was already running); a fresh instance that loads `s` and evaluates the same step `i` again gives the same
+    energy and the same atomic forces, accumulates nothing twice, and ends up in the same state up to run bookkeeping -/
+theorem stop_step_reproduced (prev fresh : Sys ℝ) (i : StepIn ℝ)
+    (hrun : prev.clock.first = false) (hrel : 0 ≤ prev.clock.stepRelative) (hc : i.cont = false)
+    (hsimple : Simple prev) (htidy : Tidy prev) (hf : FreshOf fresh (modStep prev i).1) :
+    let s := (modStep prev i).1
+    let r := modStep (sysLoad fresh s) i
+    r.2 = (modStep prev i).2 ∧ persist r.1 = persist s ∧ SameUpToRun s r.1 := by
+  intro s r
+  obtain ⟨hkind, htsf1, hz1, hz2⟩ := hsimple
+  have hcompat : ∀ a b, Compatible a b → C03L.Compat a b := by
+    intro a b h; cases a <;> cases b <;> exact h
+  -- the clocks of the two evaluations
+  have hP : modStep prev i = C03L.stepAt prev (prev.clock.tick false) i := by rw [C03L.modStep_stepAt, hc]
+  have hcP : prev.clock.tick false = { prev.clock with it := prev.clock.it + 1, cont := false } :=
+    C03L.tick_running prev.clock hrun
+  have hposP : 0 < (prev.clock.tick false).stepRelative := by
+    rw [hcP]; simp only [Clock.stepRelative] at hrel ⊢; omega
+  have hfirstP : (prev.clock.tick false).first = false := by rw [hcP]; exact hrun
+  generalize prev.clock.tick false = cP at hP hposP hfirstP
+  rw [hP] at hf
+  have hs : s = (C03L.stepAt prev cP i).1 := by show (modStep prev i).1 = _; rw [hP]
+  obtain ⟨cL, hcL⟩ : ∃ cL : Clock, cL = { it := s.clock.it, itRestart := s.clock.it, first := false, cont := false } :=
+    ⟨_, rfl⟩
+  have hr : r = C03L.stepAt (sysLoad fresh s) cL i := by
+    show modStep (sysLoad fresh s) i = _
+    rw [C03L.modStep_stepAt, hc, hcL]; rfl
+  have hrelL : cL.stepRelative = 0 := by rw [hcL]; simp [Clock.stepRelative]
+  have hitL : cL.it = s.clock.it := by rw [hcL]
+  have hfirstL : cL.first = false := by rw [hcL]
+  clear hcL
+  clear_value s r
+  subst hs hr
+  rw [hP]
+  have hsb : ∀ nb ∈ prev.biases, C03L.SimpleBias nb.2 := fun nb hnb =>
+    ⟨hkind nb hnb, hz1 nb hnb, hz2 nb hnb⟩
+  have hlen : fresh.cvs.length = prev.cvs.length := by
+    rw [hf.cvsLen]
+    show (C03L.finCvs _ _).length = _
+    rw [C03L.finCvs_length, List.length_map]
+  obtain ⟨h1, h2, h3, h4, h5⟩ := C03L.stepAt_reload prev fresh i cP cL hposP hrelL hsb htsf1 htidy
+    hf.tfSame hf.tfLoop hf.tsf hf.applied hlen hf.cvs hf.names hf.nodup
+    (fun pr hpr => hcompat _ _ (hf.compat pr hpr))
+  refine ⟨h1, ?_, ?_⟩
+  · simp only [persist, h2]
+    exact congrArg (fun x => (x, _)) hitL
+  · exact {
+      it := hitL.symm
+      running := ⟨hfirstP, hfirstL⟩
+      rel := ⟨le_of_lt hposP, le_of_eq hrelL.symm⟩
+      tfSame := hf.tfSame.symm
+      tfLoop := hf.tfLoop.symm
+      tsf := hf.tsf.symm
+      biases := h2.symm
+      applied := h3.symm
+      cvsLen := h4.symm
+      cvs := h5 }
+
+/-- **resume ≡ uninterrupted** (histogram / harmonic / ABF modules): stop after step `i`, load into a fresh instance,
+    re-evaluate `i`, continue with `rest`: every later output and the final state file equal those of the run that
+    never stopped -/
+theorem resume_equals_uninterrupted (prev fresh : Sys ℝ) (i : StepIn ℝ) (rest : List (StepIn ℝ))
+    (hrun : prev.clock.first = false) (hrel : 0 ≤ prev.clock.stepRelative) (hc : i.cont = false)
+    (hrest : ∀ j ∈ rest, j.cont = false)
+    (hsimple : Simple prev) (htidy : Tidy prev) (hf : FreshOf fresh (modStep prev i).1) :
+    let s := (modStep prev i).1
+    let resumed := sysRun (sysLoad fresh s) (i :: rest)
+    let straight := sysRun s rest
+    resumed.2.tail = straight.2 ∧ persist resumed.1 = persist straight.1 := by
+  intro s resumed straight
+  obtain ⟨-, -, h3⟩ := stop_step_reproduced prev fresh i hrun hrel hc hsimple htidy hf
+  obtain ⟨h4, h5, -⟩ := runs_together _ _ rest h3 hrest
+  exact ⟨h4.symm, h5.symm⟩
+
+end Cv.C03
